@@ -348,7 +348,7 @@ def validate_cases(rng, rep, pair, budget, fails, jobs, hist):
             a += ["-e", c]
         if rng.random() < 0.3:
             a += ["-w", "W004", "-w", "W007"]
-        mode = rng.choice(["repo", "objects", "objects"]) if ids else "repo"
+        mode = rng.choice(["repo", "objects", "objects", "paths"]) if ids else "repo"
         if mode == "repo":
             lr = pair.live.ask("validaterepo %d" % (0 if nofix else 1))
             if not lr.startswith("ok "):
@@ -357,6 +357,16 @@ def validate_cases(rng, rep, pair, budget, fails, jobs, hist):
             enc = lambda codes: ",".join(codes) if codes else "-"
             line = "script-vexit repo %s %s %s %s" % (enc(se), enc(J["root"]), enc(J["hierarchy"]), " ".join(enc(o[2]) for o in J["objects"]) + (" !" * J["failed"]))
             cli = pair.sb.run(a)
+        elif mode == "paths":
+            # -p: the arguments are object root paths; the library call is validate_object_at
+            roots = [o[1] for o in R["objects"] if o[1]]
+            chosen = rng.sample(roots, rng.randint(1, len(roots)))
+            res = []
+            for pth in chosen:
+                lr = pair.live.ask("validateat %s %d" % (hx(pth), 0 if nofix else 1))
+                res.append(",".join(json.loads(lr[3:])["errors"]) or "-" if lr.startswith("ok ") else "!")
+            line = "script-vexit objects %s %s" % (",".join(se) if se else "-", " ".join(res))
+            cli = pair.sb.run(a + ["-p"] + chosen)
         else:
             chosen = rng.sample(ids, rng.randint(1, len(ids))) + (["no-such-object"] if rng.random() < 0.3 else [])
             res = []
